@@ -167,3 +167,10 @@ Definition crash_case (ops : list xop) (k : nat) : string :=
   | Some d => obs_rocks (ropen d) ""
   | None => "NOCRASH"
   end.
+
+(* C37: the state machine a coordinator must have after applying the committed entries [es] *)
+Definition sm_case (es : list entry) : string :=
+  let v := sm_apply es smv0 in
+  if sm_panics es smv0 then "PANIC"
+  else "A" ++ str_ologid (sv_applied v) ++ "|M" ++ str_smember (sv_member v) ++ "|T" ++ str_state (sv_state v).
+
